@@ -131,6 +131,8 @@ def gen_cases(tier):
                         cases.append({"fam": "C", "tabs": list(tabs), "schema": sch, "layout": "line", "nosemi": True})
                         # ... and with every table spread over several lines, '(' on the CREATE line and ')' on a line of its own
                         cases.append({"fam": "C", "tabs": list(tabs), "schema": sch, "layout": "multi", "nosemi": True})
+                        # only the FIRST table lacks its ';' (the next, complete one-line statement ends it)
+                        cases.append({"fam": "C", "tabs": list(tabs), "schema": sch, "layout": "line", "nosemi": "first"})
                     if lay == "line":
                         # the same script behind a comment line that holds a lone apostrophe (quote-aware pre-processing must not lose its bearings)
                         cases.append({"fam": "C", "tabs": list(tabs), "schema": sch, "layout": "glued", "apos": True})
@@ -181,7 +183,9 @@ ATTRS = ("name", "type", "size", "nullable", "default")
 
 def _ddl(case):
     ddl, exps = build(case)
-    if case.get("nosemi"):
+    if case.get("nosemi") == "first":
+        ddl = ddl.replace(";", "", 1)
+    elif case.get("nosemi"):
         ddl = "\n".join(l.rstrip().rstrip(";") for l in ddl.split("\n") if l.strip())
     return ("-- the customer's data\n" + ddl if case.get("apos") else ddl), exps
 
